@@ -13,8 +13,8 @@ import os
 import random
 
 TAG_POOL = ["a", "b", "c", "d", "wip", "slow", "setup", "teardown",
-            "always", "skip", "xfail", "t.x", "k=v"]
-PLAIN_TAGS = ["a", "b", "c", "d", "slow", "always", "skip", "xfail", "t.x", "k=v"]
+            "always", "skip", "xfail", "t.x", "k=v", "small", "install", "t.x.y"]
+PLAIN_TAGS = ["a", "b", "c", "d", "slow", "always", "skip", "xfail", "t.x", "k=v", "small", "install", "t.x.y"]
 HOOK_NAMES = ["before_all", "after_all", "before_feature", "after_feature",
               "before_rule", "after_rule", "before_scenario", "after_scenario",
               "before_step", "after_step", "before_tag", "after_tag"]
@@ -354,7 +354,7 @@ def gen_outline(rng, lib, sid, opts):
                 any(t[0] == "fld" and t[2] == "" for t in d["tokens"]) and d["matcher"] != "re":
             st["text"] = instantiate(rng, d, placeholder=rng.choice(cols))
         if st.get("doc") is not None and rng.random() < 0.5:
-            st["doc"] += "\nvalue <%s>" % rng.choice(cols)
+            st["doc"] += ("\nvalue <%s>" if rng.random() < 0.7 else "\n5 > 3 and <%s>") % rng.choice(cols)
         if st.get("table") and st["table"]["rows"] and rng.random() < 0.5:
             st["table"]["rows"][0][0] = "<%s>" % rng.choice(cols)
     examples = []
@@ -383,7 +383,7 @@ def gen_outline(rng, lib, sid, opts):
                 row[ci] = "t%d" % rng.randint(0, 9)
     name = "ol %s" % sid
     if rng.random() < 0.5:
-        name += " <%s>" % rng.choice(cols)
+        name += (" <%s>" if rng.random() < 0.8 else " > 5 for <%s>") % rng.choice(cols)
     mut = None
     if opts.get("table_mutation") and rng.random() < 0.5:
         e = rng.randrange(len(examples))
@@ -440,8 +440,9 @@ def gen_items(rng, lib, prefix, n, opts, allow_rules):
 
 def gen_feature(rng, lib, fi, opts):
     fid = "F%d" % fi
-    sub = rng.choice(["", "", "", "area/"])
-    return {"id": fid, "path": "features/%sf%d.feature" % (sub, fi),
+    sub = rng.choice(["", "", "", "area/", "my area/"])
+    fname = "f%d.feature" if rng.random() < 0.9 else "f %d.feature"
+    return {"id": fid, "path": "features/%s%s" % (sub, fname % fi),
             "name": "feat %s%s" % (fid, hostile_suffix(rng, opts)),
             "tags": gen_tags(rng, opts["tag_pool"], opts["p_tag"]),
             "description": ["some description"] if rng.random() < 0.3 else [],
